@@ -544,7 +544,7 @@ fn init_strategy() -> impl Strategy<Value = InitCase> {
 }
 
 pub fn run_all(ctx: &mut Ctx, replay: Option<&Path>) {
-    ctx.rule("initialisation: case = (operator, size 0-20, dimension 0-8, domain per dimension from 7 fixed domains or random, seed, component or functional helper); exact count, unevaluated, dimension, a <= x < b, permutation of 0..dim, p in {0,1} exact, exactly one population pushed; non-trivial = size >= 2 and dim >= 2. boundary: case = (operator, per coordinate (a, b, x), seed) with x on a grid around each of 7 domains (bounds, their float neighbours, a/b -+ k*width for k in {1/4,1/2,1,3/2,2,3,10,1e3,1e6}, midpoint) alone and next to an inside and an on-bound coordinate, plus random multiples; each application runs on a worker thread with a 10 s watchdog; terminates, every coordinate within [a - tau, b + tau] (tau = 4 ulp of max(|a|,|b|,w)), coordinates already in [a, b] bit-identical, second application the identity when the first result is exactly inside, other populations untouched; non-trivial = a case with a coordinate outside and one exactly on a bound; distinct by case");
+    ctx.rule("initialisation: case = (operator, size 0-20, dimension 0-8, domain per dimension from 7 fixed domains or random, seed, component or functional helper); exact count, unevaluated, dimension, a <= x < b, permutation of 0..dim, p in {0,1} exact, exactly one population pushed; non-trivial = size >= 2 and dim >= 2. boundary: case = (operator, per coordinate (a, b, x), seed) with x on a grid around each of 7 domains (bounds, their float neighbours, a/b -+ k*width for k in {1/4,1/2,1,3/2,2,3,10,1e3,1e6}, midpoint) alone and next to an inside and an on-bound coordinate, plus random multiples; for the resampling operator also with a generator backend that first replays 1-11 structured 64-bit words (outermost layer and tail of the normal sampler, up to 11 overshoots in a row, draws beyond six standard deviations) and then continues with the seeded default backend; each application runs on a worker thread with a 10 s watchdog; terminates, every coordinate within [a - tau, b + tau] (tau = 4 ulp of max(|a|,|b|,w)), coordinates already in [a, b] bit-identical, second application the identity when the first result is exactly inside, other populations untouched; non-trivial = a case with a coordinate outside and one exactly on a bound; distinct by case");
     ctx.assume("grid magnitudes go up to 1e6 widths (1e3 for the resampling operator), plus six astronomically distant coordinates (1e17 .. f64::MAX) per operator");
     ctx.assume("a watchdog expiry (10 s for a microsecond operation) is the stated proxy for non-termination");
     let i = InitCheck;
